@@ -62,9 +62,21 @@ class IColor(enum.IntEnum):
     Z = 0
 
 
+# enums whose member NAMES are the state ids s0..s(n-1): States.from_enum(EN[n], ..., use_enum_instance=True) makes the members
+# themselves the state values ({"$en": [n, "s1"]}); the IntEnum family has a falsy member (value 0) on s0
+EN = {n: enum.Enum(f"EN{n}", {f"s{i}": chr(97 + i) for i in range(n)}, module=__name__) for n in range(1, 8)}
+IEN = {n: enum.IntEnum(f"IEN{n}", {f"s{i}": i for i in range(n)}, module=__name__) for n in range(1, 8)}
+for _n in EN:
+    globals()[f"EN{_n}"], globals()[f"IEN{_n}"] = EN[_n], IEN[_n]  # (importable by name: pickle)
+
+
 def dec(v):
     """JSON-able value -> python value ({"$t": [...]} tuple, {"$fs": [...]} frozenset, {"$e": n} Color member, {"$ie": n} IColor)."""
     if isinstance(v, dict):
+        if set(v) == {"$en"}:
+            return EN[v["$en"][0]][v["$en"][1]]
+        if set(v) == {"$ien"}:
+            return IEN[v["$ien"][0]][v["$ien"][1]]
         if set(v) == {"$e"}:
             return Color[v["$e"]]
         if set(v) == {"$ie"}:
@@ -499,13 +511,20 @@ def render(spec, *, cname=None, register=True):
     if sstyle == "enum":
         # States.from_enum(Enum, initial=, final=): names are the ids, values the abstract values
         evals = {s["id"]: (dec(s["value"]) if "value" in s else s["id"]) for s in spec["states"]}
-        # an IntEnum when every value is an int: its zero member is falsy, which must not matter to from_enum
-        ecls = enum.IntEnum if all(type(v) is int for v in evals.values()) else enum.Enum
-        E = ecls(f"{cname}_E", evals)
+        n_ = len(evals)
+        as_instance = all(isinstance(v, enum.Enum) and type(v) in (EN.get(n_), IEN.get(n_)) and v.name == k for k, v in evals.items())
+        if as_instance:
+            # the state values ARE the members of an existing enum: use_enum_instance=True
+            E = type(next(iter(evals.values())))
+        else:
+            # an IntEnum when every value is an int: its zero member is falsy, which must not matter to from_enum
+            ecls = enum.IntEnum if all(type(v) is int for v in evals.values()) else enum.Enum
+            E = ecls(f"{cname}_E", evals)
         init = next(E[s["id"]] for s in spec["states"] if s.get("initial"))
         finals = [E[s["id"]] for s in spec["states"] if s.get("final")]
         # (a single final member may be passed bare, as in the documentation)
-        sts = States.from_enum(E, initial=init, final=finals[0] if len(finals) == 1 and style.get("bare_final", True) else finals)
+        sts = States.from_enum(E, initial=init, final=finals[0] if len(finals) == 1 and style.get("bare_final", True) else finals,
+                               **({"use_enum_instance": True} if as_instance else {}))
         ns["_states"] = sts
         states = [getattr(sts, s["id"]) for s in spec["states"]]
     elif sstyle == "dict":
